@@ -227,6 +227,20 @@ func (s *RegScenario) Setup(k *sim.Kernel) {
 					default:
 						o.Out = "error:" + r.Err + ":" + r.ErrName
 					}
+				case "garbage":
+					// a peer that sends something that is not a call: the service hangs up on
+					// it, and its connection is accounted for like any other
+					if ep, err := sim.Dial(network, addr); err == nil {
+						ep.Write([]byte("{\"method\":5}\x00"))
+						buf := make([]byte, 64)
+						for {
+							if _, err := ep.Read(buf); err != nil {
+								break
+							}
+						}
+						ep.Close()
+					}
+					o.Out = "done"
 				case "call":
 					// routing: a call of method X of the named interface is dispatched
 					// exactly if that name is registered at that moment
@@ -970,6 +984,9 @@ func genC13(seed uint64, tier string) Scenario {
 					op.Op, op.Name = "resolve", g.Pick("org.varlink.resolver", pool[g.IntN(len(pool))], "nope")
 				default:
 					op.Op = "getinfo"
+				}
+				if g.Pct(4) {
+					op = RegOp{Op: "garbage", Wait: op.Wait}
 				}
 				if s.Other != nil && g.Pct(15) {
 					op = RegOp{Op: g.Pick("ogetdesc", "ogetdesc", "ogetinfo"), Name: askable(), Wait: op.Wait}
